@@ -37,6 +37,7 @@ type c11Case struct {
 	S0    *e2eSettings `json:"first_connection_settings,omitempty"` // "reconnect" stage: an earlier connection on the same daemon
 	Burst [2]int       `json:"motion_burst,omitempty"`
 	N     int          `json:"frames,omitempty"`
+	ReqAt int          `json:"test_recording_request_before_frame_index,omitempty"`
 }
 
 type c11Meta struct {
@@ -345,6 +346,44 @@ func runC11E2E0(c c11Case) (string, string, int) {
 
 // runC11Reconnect: the camera reconnects to the same daemon instance as another model; the second
 // connection's files must be shaped by the second model's motion defaults.
+// runC11Request: a TakeTestRecording request arrives through the service while the stream is being
+// processed (before, during and after a motion recording); every finished file - motion, continuous and
+// test recording - must be what a processor with three separate sinks would have produced.
+func runC11Request(c c11Case) (string, string) {
+	return guard2("C11", func() (string, string) {
+		s := *c.S
+		frames := c.e2eItems()
+		var items []e2eItem
+		for i, it := range frames {
+			if i == c.ReqAt {
+				items = append(items, e2eItem{Request: true})
+			}
+			items = append(items, it)
+		}
+		accepted := 0
+		e2eHooks = map[int]func(){}
+		for _, off := range s.requestOffsets(items) {
+			e2eHooks[off] = func() {
+				if (&service{}).TakeTestRecording() == nil {
+					accepted++
+				}
+			}
+		}
+		res, _ := s.runHandleConn(s.stream(items), nil, false)
+		defer os.RemoveAll(res.dir)
+		if res.err != io.EOF {
+			return "C11:e2e-request:connection-end", fmt.Sprintf("%+v, test-recording request before frame %d: handleConn returned %v", s, c.ReqAt+1, res.err)
+		}
+		if accepted != 1 {
+			return "C11:e2e-request:not-accepted", fmt.Sprintf("TakeTestRecording before frame %d was not accepted", c.ReqAt+1)
+		}
+		if sig, msg := s.compareWithReference(res, s.reference(items)); sig != "" {
+			return "C11:e2e-request:" + sig, fmt.Sprintf("settings %+v, %d frames with motion in frames [%d,%d), test-recording request before frame %d: %s", s, c.N, c.Burst[0], c.Burst[1], c.ReqAt+1, msg)
+		}
+		return "", ""
+	})
+}
+
 func runC11Reconnect(c c11Case) (string, string) {
 	return guard2("C11", func() (string, string) { return runC11Reconnect0(c) })
 }
@@ -368,6 +407,8 @@ func runC11(c c11Case) (string, string) {
 	switch c.Stage {
 	case "reconnect":
 		return runC11Reconnect(c)
+	case "e2e-request":
+		return runC11Request(c)
 	case "pairs":
 		sig, msg, _ := runC11Pairs(c)
 		return sig, msg
@@ -533,7 +574,7 @@ func TestVerifC11(t *testing.T) {
 	// (b) end to end: socket bytes + config.toml -> files
 	var combos []e2eSettings
 	for _, model := range []string{"boson", "lepton3", "lepton3.5"} {
-		for _, mmp := range [][3]int{{1, 2, 1}, {0, 1, 0}, {2, 2, 2}, {1, 3, 0}} {
+		for _, mmp := range [][3]int{{1, 2, 1}, {0, 1, 0}, {0, 2, 1}, {2, 2, 2}, {1, 3, 0}} {
 			for _, trg := range []int{1, 2} {
 				for _, thr := range []bool{false, true} {
 					for _, con := range []bool{false, true} {
@@ -587,9 +628,28 @@ func TestVerifC11(t *testing.T) {
 			w.Sample(map[string]interface{}{"stage": "e2e", "settings": s, "frames": c.N, "motion_burst": c.Burst, "motion_recordings_predicted": n})
 		}
 	}
+	// (b3) a TakeTestRecording request before, during and after the motion recording
+	reqCases := 0
+	for _, con := range []bool{false, true} {
+		for _, thr := range []bool{false, true} {
+			for _, at := range []int{3, 9, 12, 27, 40} {
+				s := e2eSettings{Model: "boson", ResX: 5, ResY: 4, FPS: 2, Serial: 4242, Firmware: "3.3.17", Min: 2, Max: 6, Preview: 1, Trigger: 1, Throttle: thr, BucketSecs: 30, Constant: con, DeviceName: "e2e-dev", DeviceID: 31}
+				c := c11Case{Stage: "e2e-request", S: &s, N: 70, Burst: [2]int{8, 26}, ReqAt: at}
+				sig, msg := runC11Request(c)
+				reqCases++
+				w.Evaluations++
+				w.Nontrivial++
+				w.States++
+				w.Transitions += int64(c.N)
+				w.Outcome(ev.Hash("e2e-request", con, thr, at, sig))
+				viol(c, sig, msg)
+			}
+		}
+	}
+	r.Bounds["e2e_request_cases"] = reqCases
 	// (b2) reconnect as a different camera model on the same daemon instance
 	mkS := func(model string) e2eSettings {
-		s := e2eSettings{Model: model, ResX: 160, ResY: 120, FPS: 9, Serial: 7, Firmware: "2.0.1", Min: 1, Max: 2, Preview: 1, Trigger: -1, BucketSecs: 4, DeviceName: "e2e-dev", DeviceID: 31, ModelMotionDefaults: true}
+		s := e2eSettings{Model: model, ResX: 160, ResY: 120, FPS: 9, Serial: 7, Firmware: "2.0.1", Min: 1, Max: 2, Preview: 1, Trigger: -1, BucketSecs: 4, Constant: true, DeviceName: "e2e-dev", DeviceID: 31, ModelMotionDefaults: true}
 		if model == "boson" {
 			s.ResX, s.ResY = 16, 12
 		}
@@ -610,7 +670,7 @@ func TestVerifC11(t *testing.T) {
 	r.Bounds["e2e_motion_patterns"] = len(bursts)
 	r.Extra["e2e_motion_recordings_compared"] = recs
 	r.Extra["e2e_motion_recordings_per_model"] = recsPerModel
-	r.Rule = "(a) recorder level, real CPTVFileRecorder -> go-cptv writer -> standard reader: every ordered pair of images over a block of 3 (quick) / 4 (thorough) interior pixels x values {1,255,256,32767,32768,65535} as consecutive frames (inter-frame delta coding), every pixel position x value on 8x6 (and sampled positions on 160x120), telemetry words / temperatures / threshold / preview / fps / ids / strings of length 0,1,255 and YAML-hostile content / location components 0, +, -, unset, one field at a time; (b) end to end: generated config.toml (min/max/preview secs, trigger frames, throttling on/off, camera model lepton3 / lepton3.5 with model motion defaults / boson, continuous recorder on/off) parsed by the real ParseConfig, socket bytes served to the real handleConn, every finished file compared (frames, background, threshold, header incl. motion YAML) with the recordings predicted by driving a real MotionProcessor wired by the harness from the same settings; plus the camera reconnecting to the same daemon instance as another model (lepton3 <-> lepton3.5, boson -> lepton3.5): the second connection's files must follow the second model's defaults. Non-trivial = every case."
+	r.Rule = "(a) recorder level, real CPTVFileRecorder -> go-cptv writer -> standard reader: every ordered pair of images over a block of 3 (quick) / 4 (thorough) interior pixels x values {1,255,256,32767,32768,65535} as consecutive frames (inter-frame delta coding), every pixel position x value on 8x6 (and sampled positions on 160x120), telemetry words / temperatures / threshold / preview / fps / ids / strings of length 0,1,255 and YAML-hostile content / location components 0, +, -, unset, one field at a time; (b) end to end: generated config.toml (min/max/preview secs, trigger frames, throttling on/off, camera model lepton3 / lepton3.5 with model motion defaults / boson, continuous recorder on/off) parsed by the real ParseConfig, socket bytes served to the real handleConn, every finished file compared (frames, background, threshold, header incl. motion YAML) with the recordings predicted by driving a real MotionProcessor wired by the harness from the same settings; plus a TakeTestRecording request through the service before, during and after the motion recording (continuous recorder and throttling on/off): motion, continuous and test recordings must all be what a processor with three separate sinks produces; plus the camera reconnecting to the same daemon instance as another model (lepton3 <-> lepton3.5, boson -> lepton3.5): the second connection's files must follow the second model's defaults. Non-trivial = every case."
 	r.Assumptions = []string{"data values outside the alphabets are not covered: universality over 16-bit data is not what state enumeration gives", "the reference side of (b) shares the motion processor, detector, throttle and parsers with the daemon (they are decided by C01-C09/C13); what is compared is main.go/config.go wiring and the file recorder", "NewThrottledRecorder uses the real clock: min-refill 24 h makes its contribution < 1 token"}
 	finish(t, r)
 }
